@@ -268,9 +268,11 @@ def count_obligations(modules):
     return names, qed
 
 
-def coq_make(jobs=16, timeout=3000, clean=False, modules=None):
+def coq_make(jobs=16, timeout=3000, clean=False, modules=None, pre=None):
     """Full .vo build (make -k) of coq/.  Returns (ok, logtext)."""
     with Lock("coqmake"):
+        if pre is not None:
+            pre()       # e.g. regenerate Gen/Generated.v under the same lock as the build
         gen_coqproject()
         if clean:
             subprocess.run("make -f Makefile.coq cleanall >/dev/null 2>&1; rm -f Makefile.coq Makefile.coq.conf",
